@@ -50,6 +50,37 @@ CHECKS["C13"] = dict(level="model_checking", engine="kani+mirvc",
          "rollback and rejects precede save); the writer part (write_rej_to emits exactly the failed hunks) is decided by Kani where it fits.",
     technique="bounded model checking (Kani/CBMC) of the reject writer plus SMT-decided guard VCs over the drivers' MIR", ref="DESIGN.md §2 C13", note=KANI_NOTE + " " + MIR_NOTE)
 
+def kani_check(text, ref, technique="bounded model checking of the real code (Kani/CBMC, SAT) with symbolic contents; reference oracle written from the property text", engine="kani"):
+    return dict(level="model_checking", engine=engine, text=text, ref=ref, technique=technique)
+
+CHECKS["C01"] = kani_check("Decided as a chain of solver-checked lemmas with fully asserted interfaces: (1) every hunk text of a bounded edit script (symbolic line bytes, `\\ No newline` either side, "
+    "empty-side start-line convention) parses to exactly its old/new sequences, context counts and 0-based start lines; (2) every accepted header dialect yields the right kind/names/rename flag and wires the hunks through parse_patch; "
+    "parse_filename keeps name bytes; (3) such Hunks applied to an A assembled from their own old sides apply at offset 0 / fuzz 0, give exactly B, and applied reversed to B give A (modify, create, delete); line splitting keeps terminators.",
+    "DESIGN.md §2 C01", technique="bounded model checking (Kani/CBMC) of parser and apply code, composed lemma by lemma")
+CHECKS["C03"] = kani_check("Real apply_modify on two-hunk file patches (N=3 with both stated lines symbolic: every offset / overlap arrangement; N=4 with stated lines from the matrix), symbolic line bytes: "
+    "the resulting content equals a changed-regions-only reconstruction from the hunk reports; failed hunks contribute nothing; no panic/overflow.", "DESIGN.md §2 C03")
+CHECKS["C04"] = dict(level="model_checking", engine="kani+mirvc",
+    text="apply followed by rollback is the identity on (content, deleted, permissions) for every content / permission value inside each concrete shape: modify (one hunk with symbolic stated line, two hunks), "
+         "create/delete with every name/file-state combination and symbolic modes, rename undo via move_out/move_in; rollback's panic is a checked property. LIFO over a stack follows by composition. "
+         "Driver glue (MIR): every FilePatch::rollback call passes the direction recorded in the report it undoes.",
+    technique="bounded model checking (Kani/CBMC) of apply+rollback; SMT-decided VC over the drivers' MIR for the undo direction", ref="DESIGN.md §2 C04", note=KANI_NOTE + " " + MIR_NOTE)
+CHECKS["C07"] = kani_check("FilenameDistributor<u8>: for every concrete prefix of add calls over 3 names (up to renaming symmetry; 4 names / longer prefixes in the thorough tier) the solver decides the last call "
+    "(both names, rename or not) and the thread count 1..16: names related in a reference union-find get one worker id, every id < thread_count. std HashMap is replaced by an association list on the overlay; replay uses the real HashMap.", "DESIGN.md §2 C07")
+CHECKS["C11"] = kani_check("Every sub-parser on fully symbolic buffers (<= 12 bytes; keyword lines with symbolic tails): no panic / overflow / out-of-bounds / unwrap-on-None, termination inside the unwinding bound, remainder a strict suffix; "
+    "numeric header fields: every 1..21-digit string gives its value or an error, extreme values (2^63, 2^64-1, 10^12, ...) through parse_hunk with capacity <= input length; placement terminates within a file-size bound for every stated line up to 2^62.",
+    "DESIGN.md §2 C11")
+CHECKS["C12"] = kani_check("write-then-parse on (i) hunk headers for start lines {0,1,9,10,98,99} x empty/non-empty sides, (ii) hunk bodies up to 3 lines with symbolic bytes from a 4-letter alphabet and missing final newlines, "
+    "(iii) concrete file headers per kind / rename / modes / hashes: the written form parses to the same structure and writing it again reproduces it byte for byte.", "DESIGN.md §2 C12")
+CHECKS["C16"] = dict(level="model_checking", engine="kani+mirvc",
+    text="FilePatch::strip on symbolic name bytes over {a . /} drops exactly N leading components of both names (bytewise reference: runs of slashes once, '.' dropped except leading); "
+         "MIR: choose_filename_to_patch returns the old name iff it exists in memory (not deleted) or, when not loaded, on disk, else the new name, never neither; apply direction is Revert iff the series entry says -R and the fuzz passed is config.fuzz. "
+         "Series-line parsing (getopts over BufReader lines) is outside.",
+    technique="bounded model checking (Kani/CBMC) of strip; SMT-decided decision-table VC over MIR", ref="DESIGN.md §2 C16", note=KANI_NOTE + " " + MIR_NOTE)
+CHECKS["C19"] = kani_check("For every file name over {a . /} up to 6 bytes (Borrowed and Owned) and strip 0..2 the unsafe-name check agrees with a bytewise reference (a '..' or root component left after dropping N components); "
+    "concrete end-to-end runs show parse_patch refuses such a file patch (plain, quoted-octal, git-line-only, second file) and keeps accepting names that stripping made safe.", "DESIGN.md §2 C19")
+CHECKS["C20"] = kani_check("The same file patch is applied at fuzz limit F and F+1 (F in {0,1}) on equal copies with symbolic line bytes, for every stated line 0..4 of a 4-line file: ok at F implies ok at F+1 with identical per-hunk "
+    "(line, offset, fuzz) and identical content; the recorded fuzz is the least level at which the reference placement finds a position.", "DESIGN.md §2 C20")
+
 NOT_APPLICABLE = {
  "C06": "thread interleavings over rayon's pool and real files: Kani does not model threads, and a hand model of the workers would not be the real code (DESIGN.md §2 C06)",
  "C09": "multi-invocation histories through files on disk (.pc/applied-patches read back by a later process): no pure core beyond the range arithmetic claimed under C17",
